@@ -136,6 +136,24 @@ func (p *c19Probe) prepR(id int) func(context.Context, *flyt.SharedStore) (flyt.
 	}
 }
 
+func (p *c19Probe) prepA(id int) func(context.Context, *flyt.SharedStore) (any, error) {
+	return func(ctx context.Context, s *flyt.SharedStore) (any, error) {
+		p.mu.Lock()
+		p.obs.PrepID = id
+		p.mu.Unlock()
+		return "prep", nil
+	}
+}
+
+func (p *c19Probe) postA(id int) func(context.Context, *flyt.SharedStore, any, any) (flyt.Action, error) {
+	return func(ctx context.Context, s *flyt.SharedStore, a, b any) (flyt.Action, error) {
+		p.mu.Lock()
+		p.obs.PostID = id
+		p.mu.Unlock()
+		return flyt.Action(fmt.Sprintf("post%d", id)), nil
+	}
+}
+
 func (p *c19Probe) prepBatch(id int) func(context.Context, *flyt.SharedStore) ([]flyt.Result, error) {
 	return func(ctx context.Context, s *flyt.SharedStore) ([]flyt.Result, error) {
 		p.mu.Lock()
@@ -271,7 +289,11 @@ func c19Realise(batch bool, settings []Setting) c19Obs {
 			}
 			switch s.Param {
 			case "prep":
-				opts = append(opts, flyt.WithPrepFunc(p.prepR(s.Val)))
+				if s.Val == 2 {
+					opts = append(opts, flyt.WithPrepFuncAny(p.prepA(s.Val)))
+				} else {
+					opts = append(opts, flyt.WithPrepFunc(p.prepR(s.Val)))
+				}
 			case "exec":
 				if s.Val == 2 {
 					opts = append(opts, flyt.WithExecFuncAny(p.execA(s.Val, false)))
@@ -279,7 +301,11 @@ func c19Realise(batch bool, settings []Setting) c19Obs {
 					opts = append(opts, flyt.WithExecFunc(p.execR(s.Val, false)))
 				}
 			case "post":
-				opts = append(opts, flyt.WithPostFunc(p.postR(s.Val)))
+				if s.Val == 2 {
+					opts = append(opts, flyt.WithPostFuncAny(p.postA(s.Val)))
+				} else {
+					opts = append(opts, flyt.WithPostFunc(p.postR(s.Val)))
+				}
 			case "fb":
 				opts = append(opts, flyt.WithExecFallbackFunc(p.fb(s.Val)))
 			}
@@ -305,7 +331,11 @@ func c19Realise(batch bool, settings []Setting) c19Obs {
 			case "mode":
 				b = b.WithBatchErrorHandling(c19Modes[s.Val])
 			case "prep":
-				b = b.WithPrepFunc(p.prepR(s.Val))
+				if s.Val == 2 {
+					b = b.WithPrepFuncAny(p.prepA(s.Val))
+				} else {
+					b = b.WithPrepFunc(p.prepR(s.Val))
+				}
 			case "exec":
 				if s.Val == 2 {
 					b = b.WithExecFuncAny(p.execA(s.Val, false))
@@ -313,7 +343,11 @@ func c19Realise(batch bool, settings []Setting) c19Obs {
 					b = b.WithExecFunc(p.execR(s.Val, false))
 				}
 			case "post":
-				b = b.WithPostFunc(p.postR(s.Val))
+				if s.Val == 2 {
+					b = b.WithPostFuncAny(p.postA(s.Val))
+				} else {
+					b = b.WithPostFunc(p.postR(s.Val))
+				}
 			case "fb":
 				b = b.WithExecFallbackFunc(p.fb(s.Val))
 			}
